@@ -189,7 +189,7 @@ impl Property for P {
             .boxed()
     }
     fn cases(&self, tier: Tier) -> u32 {
-        tier.pick(3000, 30000)
+        tier.pick(10000, 100000)
     }
     fn sweeps(&self, _tier: Tier) -> Vec<(String, Vec<Case>)> {
         let mut cells = Vec::new();
